@@ -297,4 +297,5 @@ def run(ctx):
         ctx.sample({"prior": dict(zip(lean_order_worlds(c["n"]), c["ranks"])),
                     "conditionals": [f"{k}:" + core.cond_text((b, a), names) for k, b, a in c["conds"]], "modes": c["modes"],
                     "results": impl.get("results"), "driver": resp[:2]})
-        ctx.failures.extend(compare(c, impl, resp, tags))
+        for f in compare(c, impl, resp, tags):
+            ctx.fail(f, lambda f: core.generic_shrink(f, recheck, fields=("revs", "conds", "ops", "history", "base"), budget=30))
